@@ -134,7 +134,15 @@ def run(tier, seed, replay=None):
                 predicted.add("/".join(bytes.fromhex(h).decode("utf-8", "replace") for h in o[5:].split("/")))
         created = set(os.path.relpath(k, outdir) for k in changed if after.get(k, ("",))[0] == "file" and k.startswith(outdir + os.sep))
         # the patch chain reports names in its own spelling: compare case-insensitively
-        if {c.lower() for c in created} != {c.lower() for c in predicted} and not outside:
+        # file-system refusals that the model does not describe: one target is a directory of another (a file cannot be both), or a
+        # component is longer than the file system allows; the run then stops early or skips entries, so only "nothing unpredicted" is demanded
+        pl = sorted(c.lower() for c in predicted)
+        fs_refusal = any(b.startswith(a + "/") for a in pl for b in pl if a != b) or any(len(x.encode()) > 255 for c in predicted for x in c.split("/"))
+        if fs_refusal:
+            agree = {c.lower() for c in created} <= {c.lower() for c in predicted}
+        else:
+            agree = {c.lower() for c in created} == {c.lower() for c in predicted}
+        if not agree and not outside:
             mism += 1
             if mism <= 4:
                 res.broken.append(("correspondence", dict(case, created=sorted(created), predicted=sorted(predicted))))
